@@ -24,6 +24,13 @@ size_t cmpSize, int compressionType, double* hist_data)
 	int status = SZ_SCES;
 	size_t dataLength = computeDataLength(r5,r4,r3,r2,r1);
 	
+	if(dataLength <= MIN_NUM_OF_ELEMENTS) //such arrays are stored verbatim by SZ_skip_compress_double
+	{
+		*newData = (double*)malloc(dataLength*sizeof(double));
+		memcpy(*newData, cmpBytes, dataLength*sizeof(double));
+		return status;
+	}
+	
 	//unsigned char* tmpBytes;
 	size_t targetUncompressSize = dataLength <<3; //i.e., *8
 	//tmpSize must be "much" smaller than dataLength
